@@ -38,6 +38,25 @@ def _chain(x, a, b, inner):
     return a + b * x * inner(x)
 
 
+def _chain_first(x, inner, a, b):      # the dependence-function parameter FIRST in the signature
+    return a + b * x * inner(x)
+
+
+def _chain_mid(x, a, inner, b):        # ... in the MIDDLE
+    return a + b * x * inner(x)
+
+
+def _const_default(V):
+    def _const(x, a=V):                # returns a scalar whatever the shape of x
+        return a
+
+    return _const
+
+
+def _const_ignoring_x(x, a, b):        # ignores x; coefficients assigned explicitly
+    return a + 0 * b
+
+
 def _mid(x, a, b, inner):
     return a + b * inner(x) / (1 + x)
 
@@ -57,6 +76,8 @@ def ref_value(spec, g):
         return spec[1] + spec[2] * g
     if kind == "def":
         return spec[1] + spec[2] * g * 1
+    if kind == "const":
+        return spec[1]
     if kind == "chain":
         return spec[1] + spec[2] * g * ref_value(spec[3], g)
     if kind == "mid":
@@ -79,18 +100,27 @@ def make_deps(vc, fam, Dn, chain):
         return f, ("lin", a, b)
 
     first = Dn[0]
+    chained = ("chain1", "chain2", "chainF", "chainM")
     for n in Dn:
-        if n == first and chain in ("chain1", "chain2"):
+        if n == first and chain in chained:
             continue
-        if chain == "defaults":
+        if chain == "const":
+            V = coef[n][0]
+            if Dn.index(n) % 2 == 0:
+                deps[n] = DF(_const_default(V))
+            else:
+                deps[n] = DF(_const_ignoring_x)
+                deps[n].parameters = {"a": V, "b": 1.0}
+            specs[n] = ("const", V)
+        elif chain == "defaults":
             a, b = coef[n]
             deps[n] = DF(_with_defaults(a, b))
             specs[n] = ("def", a, b)
         else:
             deps[n], specs[n] = plain(n)
-    if chain in ("chain1", "chain2"):
+    if chain in chained:
         a, b = coef[first]
-        if chain == "chain1":
+        if chain != "chain2":
             if len(Dn) >= 2:
                 inner, ispec = deps[Dn[-1]], specs[Dn[-1]]   # shared object, as in the V-Hs model
             else:
@@ -103,7 +133,7 @@ def make_deps(vc, fam, Dn, chain):
             inner = DF(_mid, inner=inner2)
             inner.parameters = {"a": 0.6, "b": 0.3}
             ispec = ("mid", 0.6, 0.3, ("lin", 0.7, 0.11))
-        f = DF(_chain, inner=inner)
+        f = DF({"chainF": _chain_first, "chainM": _chain_mid}.get(chain, _chain), inner=inner)
         f.parameters = {"a": a, "b": b}
         deps[first] = f
         specs[first] = ("chain", a, b, ispec)
@@ -131,7 +161,8 @@ def cond_record(vc, rid, case, seed=0, variant=0):
     fixedn = [n for n in names if n not in Dn]
     Fx = D.fixed_values(fam)
     rec = dict(id=rid, kind="cond", variant=variant, fam=fam, D=Dn, chain=chain, shape=shape, method=method, exc="",
-               shapeok=True, tplrel=0, vecrel=0, parrel=0, fixedok=True, ncmp=0, effective=False)
+               shapeok=True, tplrel=0, vecrel=0, parrel=0, fixedok=True, ncmp=0, effective=False, indep=True)
+    const = chain == "const"
     xvec, gvec = shape[0] == "v", shape[1] == "v"
     worst = dict(tpl=0.0, vec=0.0, par=0.0)
     rs = 4242 + seed
@@ -155,6 +186,8 @@ def cond_record(vc, rid, case, seed=0, variant=0):
                 for n in Dn:
                     got = cond.conditional_parameters[n](g)
                     want = [p[n] for p in refpar] if gvec else refpar[0][n]
+                    if const and np.ndim(got) == 0:     # constant in given: a scalar stands for every element
+                        got = np.broadcast_to(got, np.shape(want))
                     _, shp, rel = D.compare(got, want)
                     worst["par"] = max(worst["par"], rel if shp else float("inf"))
                 # fixed parameters
@@ -175,6 +208,8 @@ def cond_record(vc, rid, case, seed=0, variant=0):
                     _, shp, rel = D.compare(res, want)
                     worst["tpl"] = max(worst["tpl"], rel if shp else float("inf"))
                     rec["ncmp"] += int(np.size(res))
+                    # one independent variate per (row, conditioning value): no value repeated
+                    rec["indep"] = rec["indep"] and np.unique(np.asarray(res)).size == int(np.prod(exp_shape))
                     try:   # does the dependence matter?  (the default NormFit instance cannot be evaluated)
                         base = tmpl.draw_sample(x, random_state=rs)
                         rec["effective"] = rec["effective"] or not D.compare(res, np.broadcast_to(
@@ -185,6 +220,9 @@ def cond_record(vc, rid, case, seed=0, variant=0):
                 fn = getattr(cond, method)
                 res = fn(x, g)
                 exp_shape = np.broadcast(np.asarray(x), np.asarray(g)).shape
+                if const and np.shape(res) == np.shape(x):
+                    # every parameter is constant in given: the value for every given is the value at x
+                    res = np.broadcast_to(res, exp_shape)
                 rec["shapeok"] = rec["shapeok"] and np.shape(res) == exp_shape
                 resf = np.asarray(res, dtype=float).reshape(-1)
                 nel = max(len(gl), len(XV) if xvec else 1)
@@ -323,13 +361,19 @@ def key_of(c):
     return f"{c['fam']} {c['method']} dependent={'+'.join(c['D'])} chain={c['chain']} shape={c['shape']}"
 
 
+QUICK_INT_CHAINS = ("plain", "const")      # = QuickIntChains of spec/ParamRoutingOps.tla
+
+
 def judge(ctx, vc, cases, summary=True, variants=(0,), hists=()):
-    cases = [dict(c, variant=c.get("variant", v)) for v in variants for c in cases]
+    part = [v for v in variants if v == -1 and ctx.quick and summary]
+    cases = [dict(c, variant=c.get("variant", v)) for v in variants for c in cases
+             if not (v in part and c["chain"] not in QUICK_INT_CHAINS)]
     recs = [cond_record(vc, i + 1, c, ctx.seed, c["variant"]) for i, c in enumerate(cases)]
     hrecs = [condhist_record(vc, len(recs) + i + 1, h, i) for i, h in enumerate(hists)]
     allrecs = recs + hrecs
     if summary:
-        allrecs.append(dict(id=len(allrecs) + 1, kind="summary", reps=len(variants)))
+        allrecs.append(dict(id=len(allrecs) + 1, kind="summary", fullreps=len(variants) - len(part),
+                            partreps=len(part)))
     failing = ctx.validate("Trace_C08", "Trace_C08.cfg", allrecs)
     for c, r in zip(cases, recs):
         ctx.case(f"cond {key_of(c)} v{c['variant']}", nontrivial=r["exc"] == "" and r["effective"])
@@ -366,6 +410,7 @@ def selftest(ctx, rec, hrec=None):
                         ("ChainedSameGiven", dict(parrel=10 ** 9)),
                         ("FixedSameForAllGiven", dict(fixedok=False)),
                         ("ResultShape", dict(shapeok=False)),
+                        ("SampleRowsIndependent", dict(indep=False, method="draw_sample")),
                         ("Compared", dict(ncmp=0)),
                         ("UnexpectedException", dict(exc="ValueError: x"))):
         r = copy.deepcopy(rec)
@@ -384,9 +429,12 @@ def run(ctx):
     vc = import_virocon()
     D.check_distinct()
     ctx.rule = ("TLC enumerates every (family as template, non-empty dependent subset D of its parameter names "
-                "[the others fixed], chain kind plain/defaults/chain1/chain2, call shape x scalar|vector x given "
+                "[the others fixed], chain kind plain/defaults/chain1/chain2/chainF/chainM (dependence-function parameter "
+                "last/first/middle in the signature)/const (callables constant in given: scalar-returning or ignoring "
+                "x), call shape x scalar|vector x given "
                 "scalar|vector, method pdf/cdf/icdf/draw_sample); each is instantiated on the real classes and "
-                "called twice with different conditioning values, with float and with integer-typed conditioning values "
+                "called twice with different conditioning values, with float and with integer-typed conditioning values (quick: integer-typed for the plain and const "
+                "chain kinds) "
                 "(thorough: 3 more seeded random input variants); plus every history of <= 4 steps (evaluate at g1/g2, "
                 "assign new coefficients to a level, fit the innermost level) of a chained dependence function of depth "
                 "1 and 2, replayed on a real ConditionalDistribution (template family, dependent set and conditioning "
@@ -407,6 +455,7 @@ def run(ctx):
     ctx.model_check("ParamRouting", "MC_ParamRouting_cond_mut_vec.cfg", expect_violation="VectorisedEqualsPointwise")
     ctx.model_check("ParamRouting", "MC_ParamRouting_cond_mut_drop.cfg",
                     expect_violation="CondEqualsTemplateAtValues")
+    ctx.model_check("ParamRouting", "MC_ParamRouting_cond_mut_const.cfg", expect_violation="OneResultPerGiven")
     for d in (1, 2):
         ctx.model_check("ParamRoutingMemo", f"MC_ParamRoutingMemo_d{d}.cfg", must_cover=("Step",))
     ctx.model_check("ParamRoutingMemo", "MC_ParamRoutingMemo_mut.cfg",
